@@ -250,6 +250,12 @@ pub fn judge_conn(sc: &Scenario, obs: &Obs, res: &RunResult, opts: &JudgeOpts) -
                         }
                     }
                 }
+                ReadPlan::ThenZeroLengthRead { limit, .. } => {
+                    let n = (*limit).min(want.body.len());
+                    if got.body[..] != want.body[..n.min(want.body.len())] {
+                        fail(&mut f, "body-bytes", format!("request {}: read of {} bytes returned `{}`", i, limit, esc_short(&got.body, 60)));
+                    }
+                }
                 ReadPlan::Sizes { limit: Some(l), .. } => {
                     let n = (*l).min(want.body.len());
                     if got.body.len() > n || got.body[..] != want.body[..got.body.len()] || (want.body_complete && got.body.len() != n) {
@@ -350,13 +356,17 @@ pub fn judge_conn(sc: &Scenario, obs: &Obs, res: &RunResult, opts: &JudgeOpts) -
         }
         let wants: Vec<Want> = wants.into_iter().filter(|w| w.status != 0).collect();
         let heads: Vec<bool> = wants.iter().map(|w| w.head).collect();
-        let st = parse_stream(&co.received, &heads);
+        // what had arrived when the script was over and nothing could run any more: an
+        // answer that only comes once the client gives up (the runner's orderly shutdown)
+        // does not count
+        let received = &co.received[..co.received_at_script_end.min(co.received.len())];
+        let st = parse_stream(received, &heads);
         if let Some(e) = &st.error {
             if !dont_care {
                 fail(
                     &mut f,
                     if e.truncated { "response-truncated" } else { "response-malformed" },
-                    format!("client stream does not parse at byte {}: {} (stream: `{}`)", e.at, e.what, esc_short(&co.received, 300)),
+                    format!("client stream does not parse at byte {}: {} (stream: `{}`)", e.at, e.what, esc_short(received, 300)),
                 );
             }
         }
